@@ -1022,7 +1022,7 @@ theorem doxAfterScan_rel : ∀ {l1 l2 c1 c2 n1 n2 : List Tok}, TokEqL l1 l2 → 
     intro hc hn
     simp only [doxAfterScan, ← ht.1]
     split
-    · exact ⟨hc, hn, hl⟩
+    · exact ⟨hc, TokEqL.append hn (.cons ht .nil), hl⟩
     · split
       · exact ih hc (TokEqL.append hn (.cons ht .nil))
       · split
